@@ -22,8 +22,11 @@ import (
 )
 
 type sstepJ struct {
-	A  string `json:"a"`
-	Th string `json:"th"`
+	A   string `json:"a"`
+	Th  string `json:"th"` // thread, or the connection of deliver / inject / rogue / break / notice / closer
+	O   string `json:"o"`  // object of an emission / injection / rogue call; the kind of a break
+	Sig string `json:"sig"`
+	X   string `json:"x"` // rogue: the connection whose registration is named
 }
 type sschedJ struct {
 	Steps []sstepJ                     `json:"steps"`
@@ -148,16 +151,46 @@ func c13Gated(args []string) {
 		hlib.Fatal("create: %v", err)
 	}
 	defer out.Close()
-	w := newWorld()
+	w := newWorld13()
 	res := &hlib.Result{}
 	followed, lines := 0, 0
 	stuck := map[string]int{}
 	var index []map[string]interface{}
 	shapes := map[string]bool{}
+	// failure budget: a scenario that takes seconds has run into the bounds of its waits (a
+	// channel that is never closed, a call that never returns ...); a tree on which that happens
+	// again and again is broken, and what has been recorded by then shows it: stop early
+	slowN, skipped := 0, 0
+	var slowT time.Duration
 	for i, sc := range scheds {
-		conns := map[string]*conn{"c1": w.dial(), "c2": w.dial()}
-		s := newScenario(w, conns)
-		at, why := runSchedule(s, sc)
+		if slowN >= 40 || slowT > 60*time.Second {
+			skipped = len(scheds) - i
+			break
+		}
+		t0 := time.Now()
+		var threads []string
+		seen := map[string]bool{}
+		witness := false
+		for _, st := range sc.Steps {
+			if _, ok := castConn[st.Th]; ok && !seen[st.Th] {
+				seen[st.Th] = true
+				threads = append(threads, st.Th)
+			}
+		}
+		for _, st := range sc.Steps {
+			// a connection that breaks before any of its threads has moved
+			if st.A == "break" && st.Th == "c3" && !seen["t9"] && !seen["t10"] {
+				seen["t9"] = true
+				threads = append(threads, "t9")
+			}
+		}
+		for _, b := range sc.Bad {
+			if len(b) > 2 && b[:2] == "W_" {
+				witness = true
+			}
+		}
+		s := newScenario(w, threads)
+		at, why := runSchedule(s, sc, witness)
 		if at < 0 {
 			followed++
 		} else {
@@ -170,19 +203,23 @@ func c13Gated(args []string) {
 		index = append(index, map[string]interface{}{"i": i, "lines": n, "bad": sc.Bad, "stuck_at": at, "why": why})
 		lines += n
 		s.close()
-		for _, c := range conns {
-			c.ep.Close()
+		if d := time.Since(t0); d > 1500*time.Millisecond {
+			slowN++
+			slowT += d
+			index[len(index)-1]["slow_ms"] = d.Milliseconds()
 		}
 		sh := ""
 		for _, st := range sc.Steps {
 			if st.A != "deliver" && st.A != "forward" {
-				sh += st.A[:2] + st.Th + " "
+				sh += st.A[:2] + st.Th + st.O + st.Sig + " "
 			}
 		}
 		shapes[sh] = true
 	}
-	res.Evaluations = len(scheds)
+	res.Evaluations = len(scheds) - skipped
 	res.Distinct = len(shapes)
+	res.SetExtra("c13_gated_slow_scenarios", slowN)
+	res.SetExtra("c13_gated_skipped_after_budget", skipped)
 	res.SetExtra("c13_gated_followed", followed)
 	res.SetExtra("c13_gated_not_followed", stuck)
 	res.SetExtra("c13_gated_trace_lines", lines)
@@ -195,7 +232,7 @@ func c13Gated(args []string) {
 
 // runSchedule returns (-1, "") when the implementation followed the whole
 // schedule, else the step at which it could not and why.
-func runSchedule(s *scenario, sc *sschedJ) (int, string) {
+func runSchedule(s *scenario, sc *sschedJ, witness bool) (int, string) {
 	g := &gsched{arrivals: make(chan park, 64), rel: map[string]chan struct{}{}}
 	g.install(s)
 	rpcThread := ""
@@ -288,8 +325,23 @@ func runSchedule(s *scenario, sc *sschedJ) (int, string) {
 			if p, ok := g.waitPark("server", "signal.unregister"); !ok {
 				return fail(i, "unsubrpc:"+p)
 			}
+		case "rogue":
+			s.rogue(th, st.O, st.Sig, st.X)
+			rpcThread = "rogue"
+			if p, ok := g.waitPark("server", "signal.unregister"); !ok {
+				return fail(i, "rogue:"+p)
+			}
 		case "serverunreg":
 			release("server")
+			if rpcThread == "rogue" {
+				// the foreign call returns (with an error: the user id is not the caller's)
+				select {
+				case <-s.rogueRet:
+				case <-time.After(syncWait):
+					return fail(i, "serverunreg:rogue-no-return")
+				}
+				break
+			}
 			if p, ok := g.waitPark(rpcThread, "proxy.unsub.local"); !ok {
 				return fail(i, "serverunreg:"+p)
 			}
@@ -308,9 +360,20 @@ func runSchedule(s *scenario, sc *sschedJ) (int, string) {
 			case <-time.After(syncWait):
 				// ClosedAfterCancel is decided on the trace; go on
 			}
-		case "again", "deliver", "snapshot", "reply":
+		case "again", "deliver", "snapshot", "reply", "cleanup", "drop":
+			// cleanup: the emitter removes the registration whose Send failed with io.EOF on
+			// its way to the next Send; drop: the forwarding goroutine discards a message
+		case "inject":
+			s.inject(th, st.O, st.Sig)
+		case "break":
+			s.conns[th].pipe.breakWrites(st.O)
+		case "notice":
+			s.conns[th].pipe.notice()
+		case "closer":
+			// the closers of the connection run by themselves once its reader has seen the end
+			s.waitClosers(s.conns[th], syncWait)
 		case "emit":
-			s.emit(th) // th holds the signal
+			s.emit(st.O, st.Sig)
 			select {
 			case p := <-g.arrivals:
 				if p.actor != "emitter" {
@@ -339,6 +402,11 @@ func runSchedule(s *scenario, sc *sschedJ) (int, string) {
 			}
 		case "forward":
 			recvd[th]++
+			if s.threads[th].phase == "subbing" {
+				// Subscribe<X> has not returned yet: nobody reads the channel, the forwarding
+				// goroutine holds the event until then (a later forward step waits for both)
+				break
+			}
 			deadline := time.Now().Add(syncWait)
 			for s.threads[th].received() < recvd[th] && time.Now().Before(deadline) {
 				time.Sleep(20 * time.Microsecond)
@@ -351,12 +419,23 @@ func runSchedule(s *scenario, sc *sschedJ) (int, string) {
 	// every expected event has been waited for: nothing may still be queued
 	if sc.Fin == 1 {
 		// a call on every connection: what the server sent before is dispatched
-		for _, c := range s.conns {
-			c.bomb(s.w, s.id).IsStatsEnabled()
-		}
+		s.flush()
 		hev("quiet")
 	}
 	g.open()
+	if witness {
+		// the schedule ends where TLC has seen the situation it was looking for: let the
+		// emitter finish, have everything dispatched and give the forwarding goroutines
+		// a moment before the subscriptions are cancelled
+		if s.emitRet != nil {
+			select {
+			case <-s.emitRet:
+			case <-time.After(TBound):
+			}
+		}
+		s.flush()
+		time.Sleep(3 * time.Millisecond)
+	}
 	s.windDown()
 	return -1, ""
 }
@@ -373,10 +452,15 @@ func (s *scenario) windDown() {
 	for th := range s.threads {
 		s.finish(th)
 	}
-	// let in-flight replies/events be dispatched before the taps go
+	// a connection that broke: the server gets to see its end, the closers run
 	for _, c := range s.conns {
-		c.bomb(s.w, s.id).IsStatsEnabled()
+		if c.dead() {
+			c.pipe.notice()
+			s.waitClosers(c, TBound)
+		}
 	}
+	// let in-flight replies/events be dispatched before the taps go
+	s.flush()
 	time.Sleep(200 * time.Microsecond)
 }
 
